@@ -76,3 +76,36 @@ Theorem C14_session_commands_do_not_raise : forall fuel code data st c s,
   fine (sess_step fuel code data st c s).
 Proof. exact sess_step_fine. Qed.
 Print Assumptions C14_session_commands_do_not_raise.
+
+(* what the user is shown: every numeric form format_int prints for a 16-bit value (Model/Format.v, tied to
+   hera/utils.py format_int by the C14 correspondence) reads back, as an integer literal, to that value; the signed
+   form is present exactly when the sign bit is set and reads back to the two's-complement value *)
+From Hera.Model Require Import Format.
+From Hera.Proofs Require Import C14_Format.
+Theorem C14_formats_read_back : forall v, 0 <= v < 65536 ->
+  read_int (fmt_d v) = Some v /\ read_int (fmt_x v) = Some v /\ read_int (fmt_o v) = Some v /\
+  read_int (fmt_b v) = Some v /\ (32768 <= v -> read_int (fmt_s v) = Some (v - 65536)).
+Proof. exact formats_read_back. Qed.
+Print Assumptions C14_formats_read_back.
+
+Theorem C14_format_piece_denotes : forall v c p, 0 <= v < 65536 -> piece v c = Some (Some p) ->
+  ((c = 100 \/ c = 120 \/ c = 111 \/ c = 98) -> read_int p = Some v) /\
+  (c = 115 -> 32768 <= v /\ read_int p = Some (v - 65536)).
+Proof. exact piece_denotes. Qed.
+Print Assumptions C14_format_piece_denotes.
+
+Theorem C14_signed_shown_iff : forall v, piece v 115 = Some None <-> v < 32768.
+Proof. exact signed_shown_iff. Qed.
+Print Assumptions C14_signed_shown_iff.
+
+Theorem C14_default_dump : forall v, 0 <= v < 65536 ->
+  format_int v [120; 100; 115; 99] =
+  Some (join_eq ([fmt_x v; fmt_d v] ++ (if 32768 <=? v then [fmt_s v] else []) ++
+                 (if printable v then [repr_chr v] else []))).
+Proof. exact default_dump. Qed.
+Print Assumptions C14_default_dump.
+
+Example C14_format_example :
+  format_int 65 [120; 100; 115; 99] = Some [48; 120; 48; 48; 52; 49; 32; 61; 32; 54; 53; 32; 61; 32; 39; 65; 39] /\
+  format_int 65535 [100; 115] = Some [54; 53; 53; 51; 53; 32; 61; 32; 45; 49].
+Proof. vm_compute. split; reflexivity. Qed.
